@@ -81,6 +81,9 @@ class TcpConnection():
             raise ConnectionError("There is no transport connection up for "\
                                   "this PeerNode")
 
+        #: Under the lock, so that the transport thread never updates the 
+        #: selector of a socket that is being closed.
+        self.lock.acquire()
         self.is_connected = False
         try:
             self.selector.unregister(self.sock)
@@ -97,6 +100,7 @@ class TcpConnection():
                                  f"such Selector registered")
 
         self._stop_threads = True
+        self.lock.release()
 
 
     def run(self) -> None:
@@ -124,7 +128,11 @@ class TcpConnection():
 
     def _set_selector_events_mask(self, mode: Literal["r", "w", "rw"], msg: Any = None) -> None:
         self.lock.acquire()
-        if mode == "r" and (self.data_stream or self._send_buffer):
+        if not self.is_connected:
+            #: The socket has been closed meanwhile.
+            pass
+
+        elif mode == "r" and (self.data_stream or self._send_buffer):
             #: There are still bytes waiting to be written: stay in write 
             #: mode until the transport thread has flushed them.
             pass
